@@ -133,6 +133,9 @@ func obOK(ob *Obligation) bool {
 }
 
 // runProperty generates and discharges all obligations of a property on the given verifier.
+// retryUndecided enables the second-chance pass of runProperty (main run of a check, not mutant runs).
+var retryUndecided = false
+
 func runProperty(v *Verifier, cfg *PropConfig, tier string, timeoutS int, agreement bool) *runOutcome {
 	out := &runOutcome{v: v, solverTime: map[string]float64{}, bySolver: map[string]int{}}
 	out.errs = append(out.errs, v.CS.Errs...)
@@ -186,6 +189,29 @@ func runProperty(v *Verifier, cfg *PropConfig, tier string, timeoutS int, agreem
 		}
 	}
 	solveAll(out.results, v.W.prelude, timeoutS, 16, agreement)
+	// Second chance for obligations no solver decided (timeout/unknown, never sat): a few of them are re-run one at
+	// a time with a longer limit, so that a loaded machine does not turn a slow proof into an alarm. A run in which
+	// many obligations fail (a broken tree) is not retried.
+	if retryUndecided {
+		var und []*Obligation
+		for _, r := range out.results {
+			for _, ob := range r.Obls {
+				if !obOK(ob) && !ob.Cover && (ob.Verdict == "timeout" || ob.Verdict == "unknown") && ob.Query != "" && !strings.Contains(ob.Model, ": sat ") {
+					und = append(und, ob)
+				}
+			}
+		}
+		if len(und) > 0 && len(und) <= 6 {
+			tmp, err := os.MkdirTemp("", "gvcretry")
+			if err == nil {
+				for i, ob := range und {
+					ob.Verdict = ""
+					discharge(ob, ob.Query, timeoutS*3, tmp, 100000+i, agreement)
+				}
+				os.RemoveAll(tmp)
+			}
+		}
+	}
 	for _, r := range out.results {
 		for _, ob := range r.Obls {
 			out.obls = append(out.obls, ob)
@@ -393,7 +419,9 @@ func cmdCheck(args []string) {
 	}
 	v := newVerifier(pkgs)
 	axErrs := v.evalAxioms()
+	retryUndecided = true
 	out := runProperty(v, &cfg, *tier, timeoutS, agreement)
+	retryUndecided = false
 	out.errs = append(append(loadErrs, axErrs...), out.errs...)
 
 	known := readKnownFindings()
